@@ -213,6 +213,25 @@ def build_items(ctx, rnd):
     return [it for it in items if it is not None]
 
 
+def walk_side(ctx):
+    """E3: the same decomposition law where the matcher consults the file system (REALPATH normalises directory names before it
+    evaluates inclusions AND exclusions) and in glob() itself, on symbolic trees."""
+    from engine import fsdriver
+    from wcmatch import glob as G
+    S = G.GLOBSTAR | G.EXTGLOB
+    cases = [(('*',), ('*/',), 0), (('**',), ('*/',), S), (('**',), ('**/x',), S), (('*', '*/*'), ('a',), 0), (('*',), ('.*',), 0), (('**',), ('**/.*',), S),
+             (('*', '.*'), ('[a-c]*/',), 0), (('**/',), ('a/',), S), (('**',), ('a', '*/x/'), S | G.DOTGLOB), (('@(a|b)', 'x'), ('!(a)',), S), (('*/x', 'a'), ('*/*/',), 0),
+             (('**',), ('a/**',), S), (('*',), ('*',), G.NODIR), (('**',), ('**/',), S | G.MARK)]
+    ts = ['flat', 'nest', 'hid', 'link1'] if ctx.quick else ['flat', 'nest', 'hid', 'hid2', 'link1', 'link2', 'same', 'dirsonly', 'deep']
+    combos = [('c07fs', t, c) for c in cases for t in ts]
+    saved = ctx.coverage
+    ctx.coverage = {}
+    fsdriver.run_property(ctx, combos, None, 3000 if ctx.quick else 60000, lambda p: f'inclusions={list(p[0])} exclusions={list(p[1])} flags={p[2]:#x}', known_from=('C07',))
+    walk = ctx.coverage
+    ctx.coverage = saved
+    return walk
+
+
 def run(ctx):
     rnd = random.Random(ctx.seed * 7919 + 7)
     N = 6 if ctx.quick else 8
@@ -283,10 +302,12 @@ def run(ctx):
                 ctx.inconclusive.append({'why': 'xh_c07 counterexample does not reproduce', 'call': r['call']})
         elif r['verdict'] != 'confirmed':
             ctx.inconclusive.append({'why': 'xh_c07 ' + r['verdict'], 'out': r['output'][-200:]})
+    walk = walk_side(ctx)
+    ctx.coverage['walk_side'] = {k: walk.get(k) for k in ('evaluations', 'distinct_nontrivial', 'combos', 'solver_calls', 'traces_validated_against_impl', 'samples')}
     ctx.coverage['crosshair_conditions'] = [{k: r[k] for k in ('name', 'verdict', 'time_s')} for r in xres]
     ctx.coverage.update({
-        'evaluations': q['sat'] + q['unsat'] + q['unknown'],
-        'distinct_nontrivial': len(distinct),
+        'evaluations': q['sat'] + q['unsat'] + q['unknown'] + (walk.get('evaluations') or 0),
+        'distinct_nontrivial': len(distinct) + (walk.get('distinct_nontrivial') or 0),
         'rule': 'one obligation per (mode, form, flags, combined patterns): language of the real combined matcher == OR(single inclusions) AND NOT '
                 'OR(single exclusions with DOTMATCH); non-trivial = combined language non-empty (or an exclusions-alone emptiness check)',
         'samples': samples, 'forms': forms, 'obligations': len(results), 'queries': q, 'solver_time_s': round(solver_s, 2),
